@@ -122,9 +122,20 @@ func (t Table) DDL() []string {
 }
 
 func (t Table) Migrate(ctx context.Context, pg Conn) error {
-	for _, stmt := range t.DDL() {
-		if _, err := pg.Exec(ctx, stmt); err != nil {
-			return fmt.Errorf("table %q stmt %q: %w", t.Name, stmt, err)
+	// The first statement creates the table. Columns that an existing
+	// table lacks are added before the indexes that may name them.
+	ddl := t.DDL()
+	exec := func(stmts []string) error {
+		for _, stmt := range stmts {
+			if _, err := pg.Exec(ctx, stmt); err != nil {
+				return fmt.Errorf("table %q stmt %q: %w", t.Name, stmt, err)
+			}
+		}
+		return nil
+	}
+	if len(ddl) > 0 {
+		if err := exec(ddl[:1]); err != nil {
+			return err
 		}
 	}
 	diff, err := Diff(ctx, pg, t.Name, t.Columns)
@@ -141,6 +152,9 @@ func (t Table) Migrate(ctx context.Context, pg Conn) error {
 		if _, err := pg.Exec(ctx, q); err != nil {
 			return fmt.Errorf("adding column %s/%s: %w", t.Name, c.Name, err)
 		}
+	}
+	if len(ddl) > 1 {
+		return exec(ddl[1:])
 	}
 	return nil
 }
